@@ -61,6 +61,8 @@ NAME_POOLS = [
 class TypeRender:
     """Rust source for one configuration."""
 
+    BYSTANDER_PROPS = ('C02', 'C03', 'C05', 'C06', 'C07', 'C09', 'C10')
+
     FIELD_TYPES = {'A': 'TA', 'B': 'TB', 'P': 'P', 'ref': "&'static P", 'bool': 'bool', 'u64': 'u64', 'unit': '()', 'char': 'char',
                    'str': "&'static str", 'nz': '::core::num::NonZeroU8', 'opt': 'Option<u8>', 'nested': 'probes::Inner'}
     with_finger = True
@@ -78,6 +80,15 @@ class TypeRender:
         self.used_overrides = set()
         # naming dimension: mostly plain names, sometimes raw / template-internal / underscore names
         self.pool = None if canonical else NAME_POOLS[pick([0, 0, 0, 1, 2, 3], idx, 'names')]
+        # bystander dimension (run-time corpora only): another trait is educed next to the studied ones and given
+        # field attributes of its own, stacked before / after / inside the studied trait's attribute; and foreign
+        # (non-educe) attributes are sprinkled around the educe ones.  Neither may change the studied impls.
+        self.bystander = None
+        if not canonical and prop in self.BYSTANDER_PROPS and pick([0, 1], idx, 'bystander') == 1:
+            cand = 'Debug' if 'Debug' not in self.traits else ('Hash' if 'Hash' not in self.traits else None)
+            if cand and cfg['kind'] != 'union' and len(cfg['variants']) > 0:
+                self.bystander = cand
+        self.foreign = (not canonical) and prop in self.BYSTANDER_PROPS + ('C08',)
 
     # ------------------------------------------------------------ spelling
     def sp(self, cls, site, T='', P='', V='', S=None):
@@ -200,7 +211,33 @@ class TypeRender:
 
     def type_attr(self):
         parts = [self.type_trait_meta(t) for t in self.order(self.traits, 't/order')]
+        if self.bystander:
+            k = hpick(len(parts) + 1, self.idx, 'bypos')
+            parts.insert(k, self.bystander)
         return self.attrs(parts, 't/split')
+
+    def bystander_meta(self, v, i):
+        key = (self.idx, v, i)
+        if self.bystander == 'Debug':
+            return pick([None, 'Debug(ignore)', 'Debug = false', 'Debug(method(probes::m_any))'], 'noisek', key)
+        if self.bystander == 'Hash':
+            return pick([None, 'Hash(ignore)', 'Hash = false', 'Hash(method(probes::m_anyhash))'], 'noisek', key)
+        return None
+
+    def foreign_wrap(self, text, key):
+        """sprinkle non-educe attributes around a rendered educe attribute string"""
+        if not self.foreign or not text:
+            return text
+        how = pick(['', '', 'allow-before', 'doc-before', 'allow-after', 'both'], 'foreign', self.idx, key)
+        if how == 'allow-before':
+            return '#[allow(dead_code)] ' + text
+        if how == 'doc-before':
+            return '#[doc = "x"] ' + text
+        if how == 'allow-after':
+            return text + '#[allow(dead_code)] '
+        if how == 'both':
+            return '#[doc = "x"] ' + text + '#[allow(dead_code)] '
+        return text
 
     def type_default_expr(self):
         raise NotImplementedError
@@ -320,8 +357,15 @@ class TypeRender:
             if pick([0, 1, 2], 'noise', key) != 0:
                 noise = pick(['Debug(ignore)', 'Debug = false', 'Debug(method(probes::m_any))'], 'noisek', key)
                 metas = metas + [noise] if pick([0, 1], 'noisepos', key) == 0 else [noise] + metas
-            return self.attrs(metas, base + '/split')
-        return self.attrs(self.order(metas, base + '/order'), base + '/split')
+            return self.foreign_wrap(self.attrs(metas, base + '/split'), base)
+        if self.bystander:
+            nm = self.bystander_meta(v, i)
+            if nm:
+                metas = self.order(metas, base + '/order')
+                k = hpick(len(metas) + 1, self.idx, 'bymeta', v, i)
+                metas.insert(k, nm)
+                return self.foreign_wrap(self.attrs(metas, base + '/split'), base)
+        return self.foreign_wrap(self.attrs(self.order(metas, base + '/order'), base + '/split'), base)
 
     def field_type(self, v, i, f):
         ty = f.get('ty', 'P')
